@@ -208,7 +208,7 @@ InstFails(r, ep, j, held) ==
        \cup CurrentFails(Ch, X, Eps)
        \cup ControlFails(r, ep, j, X, pwmF, r.dt)
        \cup StopFails(r, X, j)
-       \cup Failing({ <<"LockSignSafe", SL => SignSafe(pwmF, X.el[1].spd)>>,
+       \cup Failing({ <<"LockSignSafe", SL => SignSafe(pwmF, IF RSign(BandOf) > 0 /\ RLe(RAbs(X.el[1].spd), SpeedFloor) THEN "0" ELSE X.el[1].spd)>>,
                       <<"ClampWithoutSelfLocking", held => SL>>,
                       <<"PwmRange", RLe("-1", X.pwm) /\ RLe(X.pwm, "1")>> })
 
